@@ -164,6 +164,7 @@ def build_C01(ctx, tier, rnd):
                 for a in acts:
                     for b in (acts if tier == 'thorough' else ['q', 's', 'R']):
                         hs.append(('c01%s_%d' % (tag, len(hs)), [al.init] + al.seq(pre) + al.seq([d, a, b, 'p'])))
+        hs += double_damage(al, 'c01dd' + tag)
         depth = 3 if tier == 'quick' else 4
         small = ['q', 's', 'ok', 'fail', 'R', 'u1', 'u2', 'dT1', 'dS1', 'dPg'] if tier == 'quick' else \
             ['q', 's', 'ok', 'fail', 'R', 'u1', 'u2', 'dT1', 'dS1', 'dPg', 'dD2', 'rb1']
@@ -171,6 +172,21 @@ def build_C01(ctx, tier, rnd):
         labels = LIFE + DMG1 + ['p', 'dT2', 'dD2', 'dS2', 'u1b']
         weights = [3 if l in ('q', 'p', 's', 'R') else 1 for l in labels]
         hs += gen.random_walks(al, labels, weights, 150 if tier == 'quick' else 3000, (8, 30), rnd, name='c01r' + tag, stale=True)
+    return hs
+
+
+def double_damage(al, name):
+    """the fallback target is damaged too: selection invalidated AND last good patch damaged, in both
+    orders, then every way of asking for the next boot patch"""
+    hs = []
+    for pk in ('good1pend2', 'good1boot2', 'good1boot2pend3'):
+        sel = '3' if pk.endswith('pend3') else '2'
+        for d_sel in ('dD' + sel, 'dF' + sel, 'dT' + sel, 'dS' + sel):
+            for d_lb in ('dS1', 'dT1', 'dE1', 'dF1', 'dD1'):
+                for order in (0, 1):
+                    for ask in (('q',), ('p',), ('s', 'c'), ('R', 'q'), ('R', 's', 'p'), ('rb5', 'q'), ('ck2', 'p')):
+                        dd = [d_sel, d_lb] if order == 0 else [d_lb, d_sel]
+                        hs.append(('%s_%d' % (name, len(hs)), [al.init] + al.seq(PFX[pk]) + al.seq(dd) + al.seq(ask) + ['op nextpath', 'op nextnum']))
     return hs
 
 
@@ -308,6 +324,7 @@ def build_C07(ctx, tier, rnd):
                     ops = [al.init] + al.seq(PFX[pk]) + [op_update(ctx, 2, signed=True)] + al.seq([dm]) + al.seq(cont) + ['op nextpath']
                     hs.append(('c07t_%s_%d' % (kn, len(hs)), ops))
     al = gen.Alphabet(ctx, key=KEY1)
+    hs += double_damage(al, 'c07dd')
     labels = ['q', 'p', 's', 'ok', 'fail', 'R', 'u1', 'u2', 'u3', 'uns2', 'dS1', 'dS2', 'dT2', 'rb1', 'c']
     hs += gen.random_walks(al, labels, [2] * len(labels), 100 if tier == 'quick' else 3000, (6, 25), rnd, name='c07r')
     hs += gen.exhaustive(al, ['q', 's', 'ok', 'R', 'u1', 'uns2', 'u2', 'dS1', 'dS2'], 3 if tier == 'quick' else 4, name='c07x')
